@@ -211,6 +211,8 @@ def load_index(mdir=None):
 
 def lookup(icvn, vriic, fic, tspc=None, mdir=None):
     for a in load_index(mdir):
+        if not a['fic']:
+            continue          # the entry of the control map itself selects no transaction map
         if a['icvn'] == icvn and a['vriic'] == vriic and a['fic'] == fic and (tspc is None or a['tspc'] == tspc):
             return a['file']
     return None
